@@ -27,7 +27,7 @@ def run(tier, seed):
     res.assumptions = ["delete_link, _close_sub_offset_gap, delete_node and insert_hugr are NOT proved: the contract for the gap-closing loop is stated in contracts/_pending/base_gap.py but exceeds the solver budget; "
                        "they are covered by the bounded model-based run (every query compared with the sequential model after every operation)"]
     targets = QUICK + (THOROUGH_EXTRA if tier == "thorough" else [])
-    standard_flow(res, FILES, targets, None, bounded_modules=[("bounded.c04", 300, 1800)])
+    standard_flow(res, FILES, targets, None, bounded_modules=[("bounded.c04", 900, 1800)])
     res.level = "other"
     res.explanation = ("Proved from the real source for all states: sub-offset allocation, add_link (appended once to the sequences of both ports, invariants bimap/contiguity preserved, counts), "
                        "add_order_link (idempotent, order ports do not count), linked_ports / has_link / order-link listings / outgoing_links / incoming_links as functions of the view "
